@@ -40,51 +40,44 @@ def _z3_check(smt2, timeout_ms, seed=0):
 
 
 def _solve_one(task):
-    idx, smt2, timeout_ms, kind, ground_txt, seed = task
+    idx, smt2, timeout_ms, kind, want_ground, seed = task
     t0 = time.time()
     res = {'idx': idx, 'backend': 'z3', 'result': 'unknown', 'model': None, 'reason': ''}
-    quick = max(1500, timeout_ms // 5) if ground_txt is not None else timeout_ms
-    try:
-        s, r = _z3_check(smt2, quick, seed)
-        res['result'] = str(r)
-        if r == z3.sat:
-            res['model'] = _model_text(s.model())
-        elif r == z3.unknown:
-            res['reason'] = s.reason_unknown()
-    except Exception as ex:          # solver crash: never a verdict
-        res['result'] = 'error'
-        res['reason'] = repr(ex)
-    if res['result'] == 'unknown' and ground_txt is not None:
-        # refutation attempt on the finite grounding of the same query
+    stages = [max(1500, timeout_ms // 5), timeout_ms] if kind != 'cover' else [timeout_ms]
+    for n, tmo in enumerate(stages):
         try:
-            fs = list(z3.parse_smt2_string(smt2))
-            gtxt = ground_assertions(fs)
-            if gtxt is None:
-                raise ValueError('not groundable')
-            s, r = _z3_check(gtxt, max(3000, timeout_ms // 2))
+            s, r = _z3_check(smt2, tmo, seed + n)
+            res['result'] = str(r)
             if r == z3.sat:
-                res['result'] = 'sat'
-                res['backend'] = 'z3-grounded'
                 res['model'] = _model_text(s.model())
-            elif r == z3.unsat:
-                res['reason'] += ' | finite grounding unsat'
-        except Exception as ex:
-            res['reason'] += ' | grounding error %r' % (ex,)
-    if res['result'] == 'unknown' and kind != 'cover':
-        if quick < timeout_ms:
-            try:
-                s, r = _z3_check(smt2, timeout_ms, seed + 1)
-                if r != z3.unknown:
-                    res['result'] = str(r)
-                    if r == z3.sat:
-                        res['model'] = _model_text(s.model())
-            except Exception as ex:
-                res['reason'] += ' | %r' % (ex,)
+            elif r == z3.unknown:
+                res['reason'] = s.reason_unknown()
+        except Exception as ex:          # solver crash: never a verdict
+            res['result'] = 'error'
+            res['reason'] = repr(ex)
+        if res['result'] != 'unknown':
+            break
     if res['result'] == 'unknown' and kind != 'cover':
         r2 = _cvc5(smt2, timeout_ms)
         if r2 in ('unsat', 'sat'):
             res['result'] = r2
             res['backend'] = 'cvc5'
+    if res['result'] == 'unknown' and want_ground:
+        # no verdict on the unbounded query: look for a candidate counter-model on its finite grounding
+        # (a candidate only: grounding weakens quantified assumptions; the native replay decides)
+        try:
+            fs = list(z3.parse_smt2_string(smt2))
+            gtxt = ground_assertions(fs)
+            if gtxt is not None:
+                s, r = _z3_check(gtxt, max(3000, timeout_ms // 2))
+                if r == z3.sat:
+                    res['backend'] = 'z3 unknown; finite grounding sat (candidate model)'
+                    res['model'] = _model_text(s.model())
+                    res['candidate'] = True
+                elif r == z3.unsat:
+                    res['reason'] += ' | finite grounding unsat'
+        except Exception as ex:
+            res['reason'] += ' | grounding error %r' % (ex,)
     res['seconds'] = round(time.time() - t0, 3)
     return res
 
